@@ -126,6 +126,9 @@ def run(r):
     # purity first: cheap, robust, and a recorded violation takes precedence over a later 'cannot decide'
     check_pure_params(r, "C13-PURE", ["pyrepseq.entropy.renyi2_entropy", "pyrepseq.entropy.stdrenyi2_entropy", S + "pc_conditional", S + "pc_grouped_cross", "pyrepseq.distance.pcDelta_grouped", "pyrepseq.distance.pcDelta_grouped_cross"])
     rep.floor("C13-PURE", 18)
+    # the grouped forms speak about every group and every pair of groups (only pc_conditional leaves the single-member groups out)
+    from ..eff import check_no_dropping
+    check_no_dropping(r, "C13-GRP", [S + "pc_grouped_cross", "pyrepseq.distance.pcDelta_grouped", "pyrepseq.distance.pcDelta_grouped_cross"], "every group (row) of the table takes part in the grouped statistic")
     rw = std_rewrites() + [canon_binders, tuple_likes]
     compare_function(r, "C13-ENT", "pyrepseq.entropy.renyi2_entropy", SPEC, "renyi2_entropy == -log_base of pc / pc_joint / pc_conditional chosen by the documented table; non-positive base raises first",
                      eq=Equiv(rewrites=rw), key="entropy")
